@@ -84,6 +84,11 @@ impl<'a> Walk<'a> {
                 let op = eng::pos_of_ident(&other);
                 self.vio("key-collision", format!("key {:#018x} shared with different position {}", h.0, op.to_fen_with_ep(op.ep)));
             }
+            if let Ok(g0) = catch(|| Game::from_state(g.board.clone(), g.player, g.castle_rights.clone(), g.en_passant_target, 0, 0)) {
+                if g0.zobrist != g.zobrist {
+                    self.vio("key-depends-on-history", format!("key {:#018x} with halfmove clock {} and ply count {}, key {:#018x} for the same placement, side, rights and en-passant target with both counters at 0", g.zobrist.0, g.halfmove_clock, g.plies, g0.zobrist.0));
+                }
+            }
             if let Some(other) = self.ctx.keymap.bind_rev(g.zobrist.0, id) {
                 self.vio("key-depends-on-history", format!("this position (placement, side, rights, en-passant target) has key {:#018x} here and had key {other:#018x} when it was met before (halfmove clock here {})", g.zobrist.0, g.halfmove_clock));
             }
